@@ -28,8 +28,8 @@ func init() {
 			"overlap is produced by holding replies of the stand-in, i.e. at real suspension points of the server code",
 		},
 		Trusted: []string{"fakemongo (gates, command log)", "fakemqtt", "harness transport (direct mode)"},
-		Cases:   func(t string) int { return tierN(t, 200, 5000) },
-		Floor:   func(t string) int { return tierN(t, 60, 1500) },
+		Cases:   func(t string) int { return tierN(t, 400, 5000) },
+		Floor:   func(t string) int { return tierN(t, 120, 1500) },
 		Run:     runC11,
 	})
 }
